@@ -20,6 +20,8 @@
     (`.app (.pub m 3)`), see `first_delivery_order_asStated_false`; with the extra hypothesis
     `ValidQos s` (every submitted QoS is ≤ 2) it is proved, and in fact in the stronger form
     `first_delivery_order_strong` (all QoS levels, no assumption on kept sessions).
+  * All statements are for every configuration, `Cfg.deafDialer = true` (a dialer that ignores its context,
+    `NoContextDialer`) included; runs `demoDeafOk`, `demoDeafOkReqs`, `demoDeafFail`, `demoDeafPreCancelled`.
 -/
 import MqttVerif.Proofs.RetryOrder
 import MqttVerif.Proofs.RetryOrderComplete
@@ -183,6 +185,65 @@ example : (exec demoCancel).conns.map (fun c => c.pkts) =
 example : (exec demoCancel).retryQ = [.rePublish 1 1, .qSub [sA], .qPub 2 1] := by decide +kernel
 example : ((exec demoCancel).dials, (exec demoCancel).connectErr) = (1, true) := by decide +kernel
 
+/-! ### non-vacuity for a dialer that ignores its context (`Cfg.deafDialer`, e.g. `NoContextDialer`):
+    the context of the first Connect is cancelled while the dial is in flight; the loop acts on the dial's
+    result. All theorems of this file hold for every configuration, `deafDialer = true` included. -/
+
+/-- cancellation during the first dial, then the dial succeeds: the new connection carries only CONNECT and is
+    dead, the loop has exited, Connect has returned the context's error -/
+def demoDeafOk : Script :=
+  { cfg := { deafDialer := true }, evs := [.start, .cancelCtx, .dialOk 10, .waitElapsed, .dialOk 20] }
+
+example : (execTrace demoDeafOk).map (·.phase) = [.dialGate, .dialGate, .exited, .exited, .exited] := by decide +kernel
+example : (exec demoDeafOk).conns.map (fun c => (c.pkts, c.alive, c.connected)) =
+    [([(.connect, .sent .ok)], false, false)] := by decide +kernel
+example : ((exec demoDeafOk).dials, (exec demoDeafOk).connectErr, (exec demoDeafOk).connectReturned,
+    (exec demoDeafOk).waits, (exec demoDeafOk).cli) = (1, true, none, [], some 0) := by decide +kernel
+
+/-- the same script with a dialer that honours its context: the loop leaves at the cancellation, the late
+    `.dialOk` is void, there is no connection at all -/
+example : (execTrace { demoDeafOk with cfg := {} }).map (·.phase) = [.dialGate, .exited, .exited, .exited, .exited] := by
+  decide +kernel
+example : ((exec { demoDeafOk with cfg := {} }).conns.length, (exec { demoDeafOk with cfg := {} }).connectErr) =
+    (0, true) := by decide +kernel
+
+/-- … with requests waiting: the task goroutine is released on the dead connection (SetClient, Connect has
+    returned) and attempts request 0 on the closed transport; the later requests queue up behind its handle in
+    submission order, nothing is skipped or reordered -/
+def demoDeafOkReqs : Script :=
+  { cfg := { deafDialer := true },
+    evs := [.start, .app (.pub 1 1), .app (.sub [sA]), .cancelCtx, .dialOk 10, .app (.pub 2 1)] }
+
+example : (execTrace demoDeafOkReqs).map (·.phase) =
+    [.dialGate, .dialGate, .dialGate, .dialGate, .exited, .exited] := by decide +kernel
+example : (exec demoDeafOkReqs).conns.map (fun c => (c.pkts, c.alive)) =
+    [([(.connect, .sent .ok), (.publish 1 1 11 false, .dead)], false)] := by decide +kernel
+example : (exec demoDeafOkReqs).retryQ = [.rePublish 1 1, .qSub [sA], .qPub 2 1] := by decide +kernel
+example : ((exec demoDeafOkReqs).dials, (exec demoDeafOkReqs).connectErr, (exec demoDeafOkReqs).taskQ) =
+    (1, true, []) := by decide +kernel
+
+/-- cancellation during the first dial, then the dial fails: the loop exits without a back-off (no wait is
+    logged, the timer event is void), no connection, the waiting request is never attempted -/
+def demoDeafFail : Script :=
+  { cfg := { deafDialer := true },
+    evs := [.start, .app (.pub 1 1), .cancelCtx, .dialFail, .waitElapsed, .dialOk 10] }
+
+example : (execTrace demoDeafFail).map (·.phase) =
+    [.dialGate, .dialGate, .dialGate, .exited, .exited, .exited] := by decide +kernel
+example : ((exec demoDeafFail).conns.length, (exec demoDeafFail).waits, (exec demoDeafFail).dials,
+    (exec demoDeafFail).connectErr, (exec demoDeafFail).taskQ) = (0, [], 1, true, [.req (.pub 1 1)]) := by
+  decide +kernel
+
+/-- Connect called with a context that is already done: the deaf dialer dials all the same (one DialContext
+    call), its transport gets CONNECT and is closed -/
+def demoDeafPreCancelled : Script :=
+  { cfg := { deafDialer := true }, evs := [.cancelCtx, .start, .dialOk 10] }
+
+example : (execTrace demoDeafPreCancelled).map (fun w => (w.phase, w.connectErr)) =
+    [(.idle, false), (.dialGate, true), (.exited, true)] := by decide +kernel
+example : (exec demoDeafPreCancelled).conns.map (fun c => (c.pkts, c.alive)) =
+    [([(.connect, .sent .ok)], false)] := by decide +kernel
+
 /-! ## ALL REQUEST KINDS (publish, subscribe, unsubscribe) -/
 
 /-- the ghost labelling of the request packets (PUBLISH, SUBSCRIBE, UNSUBSCRIBE) attempted on the
@@ -266,6 +327,13 @@ example : reqLabels demoDiscBackoff = [some 0] := by decide +kernel
 example : reqLabels demoDiscDial = [some 0] := by decide +kernel
 example : reqLabels demoCancel = [some 0] := by decide +kernel
 
+/-- the deaf-dialer runs: the ghost follows the task goroutine's turn on the dead connection of a cancelled
+    first Connect (`preProgress … (.dialOk _) = some (dialDead …)`) -/
+example : reqLabels demoDeafOkReqs = [some 0] := by decide +kernel
+example : wireKeys (exec demoDeafOkReqs) = [.pub 1] := by decide +kernel
+example : reqLabels demoDeafFail = [] := by decide +kernel
+example : reqLabels demoDeafOk = [] := by decide +kernel
+
 /-! ## NO REQUEST IS SKIPPED
 
   `first_transmissions_subsequence` alone would also hold of a client that silently drops a QoS 1
@@ -344,6 +412,12 @@ example : acceptedIdx demoDiscBackoff = [0, 1] := by decide +kernel
 example : owedIdx demoDiscBackoff = [0, 1] := by decide +kernel
 example : (firsts (reqAttempts demoDiscBackoff)).filter (· ∈ owedIdx demoDiscBackoff) =
     (owedIdx demoDiscBackoff).take 1 := by decide +kernel
+
+/-- deaf dialer, dial succeeds after the cancellation (`demoDeafOkReqs` above): request 0 was attempted (on the
+    dead connection), requests 1 and 2 are accepted and stay queued behind its handle -/
+example : owedIdx demoDeafOkReqs = [0, 1, 2] := by decide +kernel
+example : (firsts (reqAttempts demoDeafOkReqs)).filter (· ∈ owedIdx demoDeafOkReqs) =
+    (owedIdx demoDeafOkReqs).take 1 := by decide +kernel
 
 /-- the run `demoAll` above: all accepted requests except the two dropped QoS 0 publishes (3 and 7) are
     attempted; request 9, submitted after Disconnect, is not accepted -/
